@@ -9,7 +9,7 @@ from __future__ import annotations
 from .. import specmon
 from ..models import intervals as iv
 from ..workloads import specs as W
-from ._spec_common import eval_tree, run_trees
+from ._spec_common import eval_tree, run_trees, small_scope_triples, spec_laws
 
 PROP = "C01"
 ANCHORS = ['dep_logic.specifiers.range:RangeSpecifier.__and__', 'dep_logic.specifiers.range:RangeSpecifier.__or__', 'dep_logic.specifiers.range:RangeSpecifier.__invert__', 'dep_logic.specifiers.range:RangeSpecifier.is_superset', 'dep_logic.specifiers.range:RangeSpecifier.allows_lower', 'dep_logic.specifiers.range:RangeSpecifier.allows_higher', 'dep_logic.specifiers.range:RangeSpecifier.is_strictly_lower', 'dep_logic.specifiers.range:RangeSpecifier.is_adjacent_to', 'dep_logic.specifiers.range:RangeSpecifier.can_combine', 'dep_logic.specifiers.union:UnionSpecifier.__and__', 'dep_logic.specifiers.union:UnionSpecifier.__or__', 'dep_logic.specifiers.union:UnionSpecifier.__invert__', 'dep_logic.specifiers.union:UnionSpecifier._from_ranges', 'dep_logic.specifiers.special:EmptySpecifier.__and__', 'dep_logic.specifiers.special:EmptySpecifier.__or__', 'dep_logic.specifiers.special:AnySpecifier.__and__', 'dep_logic.specifiers.special:AnySpecifier.__or__']
@@ -65,12 +65,34 @@ def _case(ctx):
     return per_case
 
 
+def _laws_under_monitors(ctx):
+    """Evaluate both sides of every law on shared leaf objects: each operator call is decided by the
+    installed post-conditions (the laws themselves are C14's subject)."""
+    from ..monitor import CaseTimeout, violation
+
+    def per_triple(objs, texts):
+        a, b, c = objs
+        for name, lf, rf in spec_laws(a, b, c):
+            for side in (lf, rf):
+                if side is None:
+                    continue
+                try:
+                    side()
+                except CaseTimeout:
+                    raise
+                except Exception as e:  # noqa: BLE001
+                    violation(PROP, "small-scope", f"operator raised {type(e).__name__} while evaluating law {name}",
+                              {"a": texts[0], "b": texts[1], "c": texts[2], "error": str(e)[:160], "group": "raise"})
+    return per_triple
+
+
 def run(ctx):
     if ctx.shard == 0:  # the repository's own pinned examples as one more workload (outcomes ignored)
         from ..repotests import run_repo_tests
 
         run_repo_tests(ctx, ("specifier", "marker", "tags"))
     run_trees(ctx, _case(ctx))
+    small_scope_triples(ctx, _laws_under_monitors(ctx))
 
 
 def replay(ctx, case):
@@ -78,5 +100,8 @@ def replay(ctx, case):
         from ..repotests import run_repo_tests
 
         run_repo_tests(ctx, nodeid=case["nodeid"])
+        return
+    if case.get("kind") == "small-triple":
+        small_scope_triples(ctx, _laws_under_monitors(ctx))
         return
     _case(ctx)(case["tree"], None)
